@@ -49,6 +49,7 @@ Next ==
     /\ LET ev == TraceLog[l]
        IN  CASE ev.e = "g" -> Grid(ev)
              [] ev.e = "w" -> Wide(ev)
+             [] ev.e = "crash" -> PrintT(<<"VMSG", l, 0, "C20", "crash-in-of_compute_blocking_struct", 1, "wide">>)
              [] OTHER      -> PrintT(<<"VMSG", l, 0, "INFRA", "unknown-record", 0, "">>)
 
 TraceSpec == Init /\ [][Next]_vars
